@@ -161,6 +161,18 @@ def catalog(tier="quick"):
         return d
     out.append(("descriptions/line-boundary-characters", make_descriptions))
 
+    def make_empty(sym):
+        # components with nothing in them are still components: a variable without terms, a block without rules
+        return base(inputs=[{"name": "X", "terms": [T_A, T_B]}, {"name": "Z", "range": (sym("zlo", "p"), sym("zhi", "p"))}],
+                    outputs=[{"name": "O", "terms": [O_A, O_B], "aggregation": "Maximum", "defuzzifier": ("Centroid", 2)},
+                             {"name": "Q", "aggregation": None, "defuzzifier": None}],
+                    blocks=[{"name": "none", "conjunction": None, "disjunction": None, "implication": None, "activation": None, "rules": []},
+                            {"name": "rules", "conjunction": "Minimum", "disjunction": "Maximum", "implication": "Minimum", "activation": ("General",),
+                             "rules": ["if X is a then O is a", "if X is b then O is b"]},
+                            {"name": "", "conjunction": None, "disjunction": None, "implication": None, "activation": ("General",), "rules": []}],
+                    compare_outputs=False)
+    out.append(("empty-components", make_empty))
+
     def make_weights(sym):
         return base(blocks=[{"name": "rb", "conjunction": "Minimum", "disjunction": "Maximum", "implication": "Minimum", "activation": ("General",),
                              "rules": ["if X is a then O is a", "if X is b then O is b", "if X is not b then O is a"]}],
